@@ -170,7 +170,7 @@ Proof.
   split; [apply Z.eqb_refl|]. split; [apply Z.eqb_sym|].
   split.
   - split; [reflexivity|]. exists [3; 1; 2]%Z. split; [reflexivity|].
-    simpl. repeat split; intros y Hy; simpl in Hy;
+    simpl. split; [|split; [|split; [|exact I]]]; intros y0 Hy; simpl in Hy;
       repeat (destruct Hy as [<-|Hy]; [split; reflexivity|]); destruct Hy.
   - vm_compute. repeat split.
 Qed.
